@@ -15,6 +15,7 @@
 -/
 import Svgdx.Proofs.Sched
 import Svgdx.Proofs.CtlInv
+import Svgdx.Proofs.Monotone
 
 namespace Svgdx.Props.C10
 open Svgdx Svgdx.Sched
@@ -165,6 +166,44 @@ theorem output_in_document_order (outs : List (Nat × List Ev)) :
     (sortOuts outs).Pairwise (fun a b => a.1 ≤ b.1) ∧ (sortOuts outs).Perm outs :=
   sortOuts_spec outs
 
+/-! ### (3) the hypothesis of (1) holds for the geometry model
+
+  `Svgdx.Proofs.Monotone`: the one-element pipeline (`resolve_position`, connector rendering, `dx/dy`)
+  of the geometry model is monotone in the set of resolved elements — once it succeeds, resolving more
+  elements (same previous element, same value for every id already known) gives the same element. -/
+
+/-- **evaluating an element is monotone** — for every element other than polyline / polygon / path,
+    connectors included: a result obtained while some references were still unresolved is final -/
+theorem evaluation_monotone {c c' : Ctx} {e e' : Elem} (h : Ctx.Incl c c')
+    (hlen : c.elems.length ≤ c'.elems.length) (hn : Monotone.NoRelspecName e)
+    (hr : e.process c = .ok e') : e.process c' = .ok e' :=
+  Monotone.process_mono h hlen hn hr
+
+/-- polyline / polygon / path carry relspecs inside `points` / `d`, which `expand_relspec` leaves as
+    written while unresolved; for them the result is final as soon as it contains no `#` / `^` any more
+    (and the transformer only accepts a result whose box can be computed, i.e. a clean one) -/
+theorem evaluation_monotone_relspec_partial {c c' : Ctx} {e e' : Elem} (h : Ctx.Incl c c')
+    (hlen : c.elems.length ≤ c'.elems.length) (hk : Attrs.NodupKeys e.attrs)
+    (hr : e.resolvePosition c = .ok e') (hcl : Monotone.CleanRelspecAttrs e') :
+    e.resolvePosition c' = .ok e' :=
+  Monotone.resolvePosition_mono_of_clean h hlen hk hr hcl
+
+/-- … and without that side condition the stage is NOT monotone (kernel-checked counterexample:
+    `<polyline points="#a@br 30 40"/>` succeeds with the reference left in place while `a` is unknown
+    and with its coordinates once `a` is known): the hypothesis above cannot be dropped -/
+theorem evaluation_not_monotone_for_raw_relspecs :
+    ¬ ∀ (c c' : Ctx) (e e' : Elem), Ctx.Incl c c' → c.elems.length ≤ c'.elems.length →
+        e.resolvePosition c = .ok e' → e.resolvePosition c' = .ok e' :=
+  Monotone.resolvePosition_not_mono
+
+/-- the scheduler's `Monotone` hypothesis, instantiated: the geometry evaluation of one element as a
+    scheduler item over environments with unique ids -/
+theorem scheduler_item_monotone (prev : Option Elem) (e : Elem) (hn : Monotone.NoRelspecName e)
+    {env env' : Sched.Env Str Elem} (hnd : (env.map Prod.fst).Nodup)
+    (h : Sched.Incl (Sched.view env) (Sched.view env')) {v : Elem}
+    (hv : Monotone.geomEval prev e env = some v) : Monotone.geomEval prev e env' = some v :=
+  Monotone.geomEval_mono prev e hn hnd h hv
+
 end Svgdx.Props.C10
 
 #print axioms Svgdx.Props.C10.order_independent
@@ -178,3 +217,7 @@ end Svgdx.Props.C10
 #print axioms Svgdx.Props.C10.no_progress_is_error
 #print axioms Svgdx.Props.C10.idle_passes_bounded
 #print axioms Svgdx.Props.C10.output_in_document_order
+#print axioms Svgdx.Props.C10.evaluation_monotone
+#print axioms Svgdx.Props.C10.evaluation_monotone_relspec_partial
+#print axioms Svgdx.Props.C10.evaluation_not_monotone_for_raw_relspecs
+#print axioms Svgdx.Props.C10.scheduler_item_monotone
